@@ -451,3 +451,16 @@ pub mod router {
 		crate::routing::router::verif::update_value_and_recompute_fees(hops, value_msat)
 	}
 }
+
+/// `latest_monitor_update_id` of a funded channel: the id of the last `ChannelMonitorUpdate` the
+/// channel has generated, whether or not it has been released to `chain::Watch` yet.
+pub fn channel_latest_monitor_update_id<CM: crate::ln::channelmanager::AChannelManager>(
+	node: &CM, counterparty_node_id: &bitcoin::secp256k1::PublicKey,
+	channel_id: &crate::ln::types::ChannelId,
+) -> Option<u64> {
+	let cm = node.get_cm();
+	let per_peer_state = cm.per_peer_state.read().unwrap();
+	let peer_state = per_peer_state.get(counterparty_node_id)?.lock().unwrap();
+	let chan = peer_state.channel_by_id.get(channel_id)?.as_funded()?;
+	Some(chan.context.get_latest_monitor_update_id())
+}
